@@ -6,6 +6,7 @@ import os
 import struct
 
 from .. import core
+from . import c17_reach
 
 PID = 'C17'
 DRV = 'drv_c17'
@@ -159,6 +160,13 @@ def run(chk):
                 'distinct = distinct protocol line')
 
     N = 8000 if tier == 'quick' else 150000
+    FM = score.FragmentMatch
+    reach = c17_reach.LineCoverage(
+        [score.get_matched_indices, score.match_spectra, score.get_fragment_matches, score.get_match_coverage,
+         score.get_matched_intensity_percentage, score.binomial_score, score._estimate_probability_of_random_match,
+         score._binomial_probability, FM.charge, FM.ion_type, FM.start, FM.end, FM.isotope, FM.loss, FM.monoisotopic,
+         FM.internal, FM.parent_sequence], tool='verif-c17')
+    reach.start()
     fails_corpus = replay_corpus(chk)
 
     # ---------------------------------------------------------------- (a) get_matched_indices: model vs impl
@@ -391,6 +399,7 @@ def run(chk):
                nontrivial_fn=lambda c: bool(c[2]) and bool(c[3]), key_fn=lambda c: repr(c))
 
     shrink_failures(chk)
+    c17_reach.record(chk, reach)
     if tier == 'thorough':
         chk.leanchecker(['PeptVerif.Props.C17', 'PeptVerif.Lemmas.Score', 'PeptVerif.Model.Score', 'PeptVerif.Spec.Score'])
     return chk.finish(classify)
@@ -587,6 +596,10 @@ def prop_binomial(score, c):
         return None
     if isinstance(got, complex) or (got != want and abs(got - want) > 1e-9 * max(abs(got), abs(want))):
         return f'binomial_score {got!r} but with k={k} matched fragments of {len(xs)} the formula gives {want!r}'
+    _, fragmentation = _mods()
+    got2 = score.binomial_score([make_fragment(fragmentation, x, k) for k, x in enumerate(xs)], ys, tol, ttype)
+    if got2 != got:
+        return f'binomial_score on Fragment objects {got2!r} differs from the value on their m/z list {got!r}'
     return None
 
 
